@@ -158,6 +158,11 @@ def cases(shard, nshards, seed, tier):
                  ["many-chains", "many-residues", "many-atoms", "exactly-62-chains", "exactly-9999-residues", "many-residues-by-icode", "exactly-9999-residues-by-icode", "serial-exactly-99999", "resseq-exactly-9999", "ten-models-just-under-100000-atoms"]):
         if mine():
             yield {"family": "limit", "kind": kind}
+    # the consumer of the fitting: the splitter tool writing every model of an mmCIF file as PDB, where the first model
+    # is inside the limits and a later one is not (atom ids run on across the models and pass 99999 inside model 2 or 3)
+    for nmodels in (2, 3):
+        if mine():
+            yield {"family": "splitter-later-model-beyond-limits", "models": nmodels}
 
 
 _IDS = "ABCDEFGHIJKLMNOPQRSTUVWXYZabcdefghijklmnopqrstuvwxyz0123456789"
@@ -211,7 +216,8 @@ def run_case(case, rec):
     ctx = dict(case)
     if fam == "generated":
         rng = random.Random(f"{seed}:C10:{case['i']}")
-        rows = gentab.random_table(rng, nmodels=rng.choice([1, 1, 2]), wide=False, hetero=case["i"] % 4 == 1)
+        # every fifth table: the first chain has no chain id at all (blank in PDB, '.' / '?' in mmCIF)
+        rows = gentab.random_table(rng, nmodels=rng.choice([1, 1, 2]), wide=False, hetero=case["i"] % 4 == 1, blank_chain=case["i"] % 5 == 4)
         mode = rng.choice(["fits-cif", "fits-pdb", "beyond", "beyond", "beyond"])
         if case["i"] % 3 == 2:
             # residues whose records are not contiguous (conformer blocks, atoms appended after a later residue)
@@ -224,6 +230,8 @@ def run_case(case, rec):
             if src == "PDB" and not emit.fits_pdb(rows):
                 src = "mmCIF"
         ctx["mode"] = mode
+    elif fam == "splitter-later-model-beyond-limits":
+        return _splitter_case(case, rec)
     elif fam == "subset":
         rng = random.Random(f"{seed}:C10:subset:{case['i']}")
         rows = []
@@ -392,6 +400,76 @@ def _drive(rec, df, rows, ctx, src):
         r["name"] = r["name"].split("|auth=")[0]
     diff = c09.compare(want, back) if all(r["occ"] is not None and r["b"] is not None for r in want) else None
     rec.check("fit.written-and-read-back", diff is None, lambda: {"ctx": ctx, "first-difference": diff})
+
+
+def _splitter_case(case, rec):
+    import contextlib
+    import io
+    import shutil
+    import sys
+    import tempfile
+
+    from rnapolis import parser_v2 as p2
+    from rnapolis import splitter
+
+    rng = random.Random(f"C10:splitter:{case['models']}")
+    one = gentab.random_table(rng, nmodels=1, nchains=2, wide=False, serial_start=0)
+    per = len(one)
+    first = 99999 - per - rng.randint(0, per // 2)   # model 1 ends at or below 99999, the next model passes it
+    rows = []
+    for m in range(1, case["models"] + 1):
+        for i, r in enumerate(one):
+            rows.append(dict(r, model=m, serial=first + (m - 1) * per + i, x=round(r["x"] + 0.25 * (m - 1), 3)))
+    d = tempfile.mkdtemp(prefix="vmon-c10-")
+    old = sys.argv
+    ctx = {"family": case["family"], "models": case["models"], "atoms-per-model": per, "first-serial": first}
+    try:
+        inp = os.path.join(d, "ensemble.cif")
+        with open(inp, "w") as fh:
+            fh.write(emit.emit_cif(rows))
+        out = os.path.join(d, "out")
+        sys.argv = ["splitter", "-o", out, "-f", "PDB", inp]
+        buf = io.StringIO()
+        try:
+            with contextlib.redirect_stdout(buf), contextlib.redirect_stderr(buf):
+                splitter.main()
+        except SystemExit:
+            pass
+        except Exception as e:
+            rec.violation("splitter.models-written-as-pdb-read-back", {"ctx": ctx, "exception": repr(e)[:300]}, mechanism=f"crash:{type(e).__name__}")
+            return
+        rec.mark_nontrivial(True)
+        for m in range(1, case["models"] + 1):
+            want = [r for r in rows if r["model"] == m]
+            path = os.path.join(out, f"ensemble_model_{m}.pdb")
+            if not os.path.exists(path):
+                rec.violation("splitter.models-written-as-pdb-read-back", {"ctx": ctx, "model": m, "problem": "no file written", "tool-output": buf.getvalue()[-300:]}, mechanism="model-file-missing")
+                continue
+            try:
+                got = c09.norm_df(p2.parse_pdb_atoms(open(path).read()))
+            except Exception as e:
+                rec.violation("splitter.models-written-as-pdb-read-back", {"ctx": ctx, "model": m, "exception": repr(e)[:300]}, mechanism=f"crash:{type(e).__name__}")
+                continue
+            prob = None
+            if len(got) != len(want):
+                prob = {"atoms-written": len(want), "atoms-read-back": len(got)}
+            else:
+                groups_w, groups_g = {}, {}
+                for i, (w, g) in enumerate(zip(want, got)):
+                    if (w["name"], w["resname"]) != (g["name"], g["resname"]) or any(abs(w[k] - g[k]) > 0.0011 for k in "xyz"):
+                        prob = {"row": i, "written": {k: w[k] for k in ("name", "resname", "x", "y", "z")}, "read-back": {k: g[k] for k in ("name", "resname", "x", "y", "z")}}
+                        break
+                    if not (g["serial"] is not None and 0 < g["serial"] <= 99999):
+                        prob = {"row": i, "serial-read-back": g["serial"]}
+                        break
+                    groups_w.setdefault((w["chain"], w["resseq"], w["icode"]), []).append(i)
+                    groups_g.setdefault((g["chain"], g["resseq"], g["icode"]), []).append(i)
+                if prob is None and sorted(groups_w.values()) != sorted(groups_g.values()):
+                    prob = {"residues-written": len(groups_w), "residues-read-back": len(groups_g)}
+            rec.check("splitter.models-written-as-pdb-read-back", prob is None, lambda: {"ctx": ctx, "model": m, "first-difference": prob})
+    finally:
+        sys.argv = old
+        shutil.rmtree(d, ignore_errors=True)
 
 
 def classify(v):
